@@ -107,177 +107,179 @@ func tagTable(c *core.Ctx) (rs rows, runs int, undecided string) {
 		return ip.Run(fn, args, nil)
 	}
 	all := append(append([]string(nil), faithfulTags...), totalityTags...)
-	for i, tag := range all {
-		faithful := i < len(faithfulTags)
-		w := fmt.Sprintf("tag %q", tag)
-		field := absint.NewTok("field", "field")
-		out := run(newProp, field, absint.Str("Configuration"), absint.Str("value"), absint.Str(tag))
-		if out.Undecided != nil {
-			return rs, runs, w + ": " + out.Undecided.Msg
-		}
-		rs.hit("total")
-		if out.Panic != nil {
-			rs.fail("total", w+": parsing panics: "+out.Panic.Msg)
-			continue
-		}
-		pr, ok := out.Ret[0].(*absint.Tok)
-		if !ok {
-			return rs, runs, w + ": NewProperty did not return a property object"
-		}
-		argsV, _ := pr.Fields["args"].(*absint.MapVal)
-		if argsV == nil {
-			return rs, runs, w + ": the property's argument map was not found (field args)"
-		}
-		got := map[string][]string{}
-		for k, v := range argsV.M {
-			l, _ := v.(*absint.List)
-			var vals []string
-			if l != nil {
-				for _, e := range l.Elems {
-					s, _ := e.(absint.Str)
-					vals = append(vals, string(s))
-				}
+	for _, kind := range [][2]string{{"Configuration", "value"}, {"Component", "wire"}} { // the grammar is the same for every kind of point
+		for i, tag := range all {
+			faithful := i < len(faithfulTags)
+			w := fmt.Sprintf("%s tag %q", kind[0], tag)
+			field := absint.NewTok("field", "field")
+			out := run(newProp, field, absint.Str(kind[0]), absint.Str(kind[1]), absint.Str(tag))
+			if out.Undecided != nil {
+				return rs, runs, w + ": " + out.Undecided.Msg
 			}
-			got[k] = vals
-		}
-		show := func(m map[string][]string) string {
-			var ks []string
-			for k := range m {
-				ks = append(ks, fmt.Sprintf("%s=%q", k, m[k]))
-			}
-			sort.Strings(ks)
-			return "{" + strings.Join(ks, " ") + "}"
-		}
-		// lookups never panic, for stored names and for awkward ones
-		names := []string{"required", "Required", "", "x", "é"}
-		for k := range got {
-			names = append(names, k, flipFirst(k))
-		}
-		for _, nm := range names {
-			if nm == "" {
-				continue // an empty argument name is outside the API's domain (formatArgType slices it); callers pass constants
-			}
-			for _, m := range []*ssa.Function{find, has} {
-				args := []absint.Value{argsV, absint.Str(nm)}
-				if m == has {
-					args = append(args, &absint.List{IsNil: true})
-				}
-				o := run(m, args...)
-				if o.Undecided != nil {
-					return rs, runs, w + ": lookup of " + nm + ": " + o.Undecided.Msg
-				}
-				if o.Panic != nil {
-					rs.fail("total", fmt.Sprintf("%s: %s(%q) panics: %s", w, m.Name(), nm, o.Panic.Msg))
-				}
-			}
-		}
-		ro := run(isReq, pr)
-		if ro.Undecided != nil {
-			return rs, runs, w + ": IsRequired: " + ro.Undecided.Msg
-		}
-		if ro.Panic != nil {
-			rs.fail("total", w+": IsRequired panics: "+ro.Panic.Msg)
-			continue
-		}
-		if !faithful {
-			continue
-		}
-		wantVal, wantArgs := refParseTag(tag)
-		rs.hit("value")
-		if pr.Fields["TagVal"] != absint.Value(absint.Str(wantVal)) || pr.Fields["TagStr"] != absint.Value(absint.Str(wantVal)) {
-			rs.fail("value", fmt.Sprintf("%s: value part %s / %s, want %q", w, absint.Show(pr.Fields["TagVal"]), absint.Show(pr.Fields["TagStr"]), wantVal))
-		}
-		rs.hit("arguments")
-		if show(got) != show(wantArgs) {
-			rs.fail("arguments", fmt.Sprintf("%s: arguments %s, want %s", w, show(got), show(wantArgs)))
-			continue
-		}
-		rs.hit("lookup")
-		for k, vals := range wantArgs {
-			for _, nm := range []string{k, flipFirst(k)} {
-				o := run(find, argsV, absint.Str(nm))
-				okF := o.Panic == nil && len(o.Ret) == 2 && o.Ret[1] == absint.Value(absint.Bool(true))
-				if okF {
-					l, _ := o.Ret[0].(*absint.List)
-					var gv []string
-					if l != nil {
-						for _, e := range l.Elems {
-							s, _ := e.(absint.Str)
-							gv = append(gv, string(s))
-						}
-					}
-					okF = fmt.Sprintf("%q", gv) == fmt.Sprintf("%q", vals)
-				}
-				oh := run(has, argsV, absint.Str(nm), &absint.List{IsNil: true})
-				okH := oh.Panic == nil && len(oh.Ret) == 1 && oh.Ret[0] == absint.Value(absint.Bool(true))
-				if !okF || !okH {
-					rs.fail("lookup", fmt.Sprintf("%s: argument %q not found under %q (Find => %s, Has => %s)", w, k, nm, showOutcome(o), showOutcome(oh)))
-				}
-			}
-		}
-		rs.hit("has-values")
-		for k, vals := range wantArgs {
-			in := func(x string) bool {
-				for _, v := range vals {
-					if v == x {
-						return true
-					}
-				}
-				return false
-			}
-			swap := func(x string) string {
-				b := []byte(x)
-				for i := range b {
-					switch {
-					case b[i] >= 'a' && b[i] <= 'z':
-						b[i] -= 32
-					case b[i] >= 'A' && b[i] <= 'Z':
-						b[i] += 32
-					}
-				}
-				return string(b)
-			}
-			var probes [][]string
-			for _, v := range vals {
-				probes = append(probes, []string{v}, []string{swap(v)}, []string{v + "x"}, []string{"other", v}, []string{" " + v})
-			}
-			probes = append(probes, []string{"never"})
-			for _, pr2 := range probes {
-				want := false
-				l := &absint.List{}
-				for _, x := range pr2 {
-					want = want || in(x)
-					l.Elems = append(l.Elems, absint.Str(x))
-				}
-				o := run(has, argsV, absint.Str(k), l)
-				if o.Undecided != nil {
-					return rs, runs, w + ": Has with values: " + o.Undecided.Msg
-				}
-				if o.Panic != nil || len(o.Ret) != 1 || o.Ret[0] != absint.Value(absint.Bool(want)) {
-					rs.fail("has-values", fmt.Sprintf("%s: Has(%q, %q) => %s, want %v (values %q)", w, k, pr2, showOutcome(o), want, vals))
-				}
-			}
-		}
-		for _, nm := range []string{"zz", "Zz"} {
-			if _, present := wantArgs["Zz"]; present {
+			rs.hit("total")
+			if out.Panic != nil {
+				rs.fail("total", w+": parsing panics: "+out.Panic.Msg)
 				continue
 			}
-			o := run(find, argsV, absint.Str(nm))
-			if o.Panic == nil && len(o.Ret) == 2 && o.Ret[1] != absint.Value(absint.Bool(false)) {
-				rs.fail("lookup", fmt.Sprintf("%s: an argument that was never written is found under %q", w, nm))
+			pr, ok := out.Ret[0].(*absint.Tok)
+			if !ok {
+				return rs, runs, w + ": NewProperty did not return a property object"
 			}
-		}
-		rs.hit("required")
-		wantReq := true
-		if vals, ok := wantArgs["Required"]; ok {
-			for _, v := range vals {
-				if v == "false" {
-					wantReq = false
+			argsV, _ := pr.Fields["args"].(*absint.MapVal)
+			if argsV == nil {
+				return rs, runs, w + ": the property's argument map was not found (field args)"
+			}
+			got := map[string][]string{}
+			for k, v := range argsV.M {
+				l, _ := v.(*absint.List)
+				var vals []string
+				if l != nil {
+					for _, e := range l.Elems {
+						s, _ := e.(absint.Str)
+						vals = append(vals, string(s))
+					}
+				}
+				got[k] = vals
+			}
+			show := func(m map[string][]string) string {
+				var ks []string
+				for k := range m {
+					ks = append(ks, fmt.Sprintf("%s=%q", k, m[k]))
+				}
+				sort.Strings(ks)
+				return "{" + strings.Join(ks, " ") + "}"
+			}
+			// lookups never panic, for stored names and for awkward ones
+			names := []string{"required", "Required", "", "x", "é"}
+			for k := range got {
+				names = append(names, k, flipFirst(k))
+			}
+			for _, nm := range names {
+				if nm == "" {
+					continue // an empty argument name is outside the API's domain (formatArgType slices it); callers pass constants
+				}
+				for _, m := range []*ssa.Function{find, has} {
+					args := []absint.Value{argsV, absint.Str(nm)}
+					if m == has {
+						args = append(args, &absint.List{IsNil: true})
+					}
+					o := run(m, args...)
+					if o.Undecided != nil {
+						return rs, runs, w + ": lookup of " + nm + ": " + o.Undecided.Msg
+					}
+					if o.Panic != nil {
+						rs.fail("total", fmt.Sprintf("%s: %s(%q) panics: %s", w, m.Name(), nm, o.Panic.Msg))
+					}
 				}
 			}
-		}
-		if len(ro.Ret) != 1 || ro.Ret[0] != absint.Value(absint.Bool(wantReq)) {
-			rs.fail("required", fmt.Sprintf("%s: IsRequired => %s, want %v", w, showOutcome(ro), wantReq))
+			ro := run(isReq, pr)
+			if ro.Undecided != nil {
+				return rs, runs, w + ": IsRequired: " + ro.Undecided.Msg
+			}
+			if ro.Panic != nil {
+				rs.fail("total", w+": IsRequired panics: "+ro.Panic.Msg)
+				continue
+			}
+			if !faithful {
+				continue
+			}
+			wantVal, wantArgs := refParseTag(tag)
+			rs.hit("value")
+			if pr.Fields["TagVal"] != absint.Value(absint.Str(wantVal)) || pr.Fields["TagStr"] != absint.Value(absint.Str(wantVal)) {
+				rs.fail("value", fmt.Sprintf("%s: value part %s / %s, want %q", w, absint.Show(pr.Fields["TagVal"]), absint.Show(pr.Fields["TagStr"]), wantVal))
+			}
+			rs.hit("arguments")
+			if show(got) != show(wantArgs) {
+				rs.fail("arguments", fmt.Sprintf("%s: arguments %s, want %s", w, show(got), show(wantArgs)))
+				continue
+			}
+			rs.hit("lookup")
+			for k, vals := range wantArgs {
+				for _, nm := range []string{k, flipFirst(k)} {
+					o := run(find, argsV, absint.Str(nm))
+					okF := o.Panic == nil && len(o.Ret) == 2 && o.Ret[1] == absint.Value(absint.Bool(true))
+					if okF {
+						l, _ := o.Ret[0].(*absint.List)
+						var gv []string
+						if l != nil {
+							for _, e := range l.Elems {
+								s, _ := e.(absint.Str)
+								gv = append(gv, string(s))
+							}
+						}
+						okF = fmt.Sprintf("%q", gv) == fmt.Sprintf("%q", vals)
+					}
+					oh := run(has, argsV, absint.Str(nm), &absint.List{IsNil: true})
+					okH := oh.Panic == nil && len(oh.Ret) == 1 && oh.Ret[0] == absint.Value(absint.Bool(true))
+					if !okF || !okH {
+						rs.fail("lookup", fmt.Sprintf("%s: argument %q not found under %q (Find => %s, Has => %s)", w, k, nm, showOutcome(o), showOutcome(oh)))
+					}
+				}
+			}
+			rs.hit("has-values")
+			for k, vals := range wantArgs {
+				in := func(x string) bool {
+					for _, v := range vals {
+						if v == x {
+							return true
+						}
+					}
+					return false
+				}
+				swap := func(x string) string {
+					b := []byte(x)
+					for i := range b {
+						switch {
+						case b[i] >= 'a' && b[i] <= 'z':
+							b[i] -= 32
+						case b[i] >= 'A' && b[i] <= 'Z':
+							b[i] += 32
+						}
+					}
+					return string(b)
+				}
+				var probes [][]string
+				for _, v := range vals {
+					probes = append(probes, []string{v}, []string{swap(v)}, []string{v + "x"}, []string{"other", v}, []string{" " + v})
+				}
+				probes = append(probes, []string{"never"})
+				for _, pr2 := range probes {
+					want := false
+					l := &absint.List{}
+					for _, x := range pr2 {
+						want = want || in(x)
+						l.Elems = append(l.Elems, absint.Str(x))
+					}
+					o := run(has, argsV, absint.Str(k), l)
+					if o.Undecided != nil {
+						return rs, runs, w + ": Has with values: " + o.Undecided.Msg
+					}
+					if o.Panic != nil || len(o.Ret) != 1 || o.Ret[0] != absint.Value(absint.Bool(want)) {
+						rs.fail("has-values", fmt.Sprintf("%s: Has(%q, %q) => %s, want %v (values %q)", w, k, pr2, showOutcome(o), want, vals))
+					}
+				}
+			}
+			for _, nm := range []string{"zz", "Zz"} {
+				if _, present := wantArgs["Zz"]; present {
+					continue
+				}
+				o := run(find, argsV, absint.Str(nm))
+				if o.Panic == nil && len(o.Ret) == 2 && o.Ret[1] != absint.Value(absint.Bool(false)) {
+					rs.fail("lookup", fmt.Sprintf("%s: an argument that was never written is found under %q", w, nm))
+				}
+			}
+			rs.hit("required")
+			wantReq := true
+			if vals, ok := wantArgs["Required"]; ok {
+				for _, v := range vals {
+					if v == "false" {
+						wantReq = false
+					}
+				}
+			}
+			if len(ro.Ret) != 1 || ro.Ret[0] != absint.Value(absint.Bool(wantReq)) {
+				rs.fail("required", fmt.Sprintf("%s: IsRequired => %s, want %v", w, showOutcome(ro), wantReq))
+			}
 		}
 	}
 	// two properties built from the same tag text own separate argument maps
